@@ -166,7 +166,8 @@ theorem createLinkGroup_spec (s : DState) (dn t : Nat) (tid : String) (iv : List
     (∀ k m, k ≠ dn → k ≠ s.g.nextKey → (createLinkGroup s dn t tid iv).g.child? k m = s.g.child? k m) ∧
     (∀ m, m ≠ "link" → (createLinkGroup s dn t tid iv).g.child? dn m = s.g.child? dn m) ∧
     (∀ k a, k ≠ s.g.nextKey → (createLinkGroup s dn t tid iv).g.getAttr k a = s.g.getAttr k a) ∧
-    (createLinkGroup s dn t tid iv).data = s.data := by
+    (createLinkGroup s dn t tid iv).data = s.data ∧
+    (createLinkGroup s dn t tid iv).g.getAttr s.g.nextKey "~kind" = none := by
   have hne : dn ≠ s.g.nextKey := by
     intro e; rw [e, hfresh] at hdn; simp at hdn
   have heg : (s.g.freshId).1.ensureGroup dn "link" =
@@ -207,11 +208,14 @@ theorem createLinkGroup_spec (s : DState) (dn t : Nat) (tid : String) (iv : List
   · intro m hm
     rw [child?_addLink_ne _ _ _ hne, hG4child, ← hG2, child?_addLink_name_ne _ _ _ _ hm, child?_newNode]
     rfl
-  · refine ⟨?_, trivial⟩
-    intro k a hk
-    rw [getAttr_addLink, ← hG4, getAttr_setAttr_ne _ _ _ hk, getAttr_setAttr_ne _ _ _ hk, ← hG2,
-      getAttr_addLink, getAttr_newNode]
-    rfl
+  · refine ⟨?_, trivial, ?_⟩
+    · intro k a hk
+      rw [getAttr_addLink, ← hG4, getAttr_setAttr_ne _ _ _ hk, getAttr_setAttr_ne _ _ _ hk, ← hG2,
+        getAttr_addLink, getAttr_newNode]
+      rfl
+    · rw [getAttr_addLink, ← hG4, getAttr_setAttr_attr_ne _ _ _ _ (by decide),
+        getAttr_setAttr_attr_ne _ _ _ _ (by decide), ← hG2, getAttr_addLink, getAttr_newNode]
+      exact getAttr_of_node?_none hfresh _
 
 theorem node?_none_of_isSome_eq {g g' : Graph} {k : Nat} (h : (g'.node? k).isSome = (g.node? k).isSome)
     (hn : g.node? k = none) : g'.node? k = none := by
@@ -226,7 +230,10 @@ theorem linkDataArray_linked {s s' : DState} {p : Path} {i t dn : Nat} {iv : Lis
     Linked s' dn t iv ∧ checkIndex iv = true ∧
       (∃ d, dataOf s t = some d ∧ d.shape.length = iv.length ∧ dataOf s' t = some d) ∧
       (kindOf s.g dn = kDimRange → s'.g.hasChild dn "ticks" = false) ∧
-      kindOf s'.g dn = kindOf s.g dn := by
+      kindOf s'.g dn = kindOf s.g dn ∧
+      (∀ k m, k ≠ dn → k ≠ s.g.nextKey → s'.g.child? k m = s.g.child? k m) ∧
+      (∀ k, k ≠ s.g.nextKey → kindOf s'.g k = kindOf s.g k) ∧
+      kindOf s'.g s.g.nextKey = "" := by
   unfold linkDataArray at h
   simp only [hdn] at h
   have hns : (kindOf s.g dn == kDimSample) = false := by
@@ -287,10 +294,10 @@ theorem linkDataArray_linked {s s' : DState} {p : Path} {i t dn : Nat} {iv : Lis
     · rfl
   have hfresh1 : g1.node? g1.nextKey = none := by
     rw [hg1nk]; exact node?_none_of_isSome_eq (hg1node _) hfresh
-  obtain ⟨c1, c2, c3, c4, c5, c6, c7⟩ :=
+  obtain ⟨c1, c2, c3, c4, c5, c6, c7, c8⟩ :=
     createLinkGroup_spec { s with g := g1 } dn t tid iv (by rw [hg1node]; exact hdnnode) hg1none hfresh1
-  simp only [hg1nk] at c1 c2 c3 c4 c6
-  generalize hs1 : createLinkGroup { s with g := g1 } dn t tid iv = s1 at h c1 c2 c3 c4 c5 c6 c7
+  simp only [hg1nk] at c1 c2 c3 c4 c6 c8
+  generalize hs1 : createLinkGroup { s with g := g1 } dn t tid iv = s1 at h c1 c2 c3 c4 c5 c6 c7 c8
   have hdata1 : dataOf s1 t = some d := by
     unfold dataOf at hd ⊢
     rw [c4 t "data" htdn htnk, hg1child_ne t "data" htdn, c7]
@@ -301,7 +308,7 @@ theorem linkDataArray_linked {s s' : DState} {p : Path} {i t dn : Nat} {iv : Lis
   · simp only [hfin, ↓reduceIte] at h
     have hs' := (Except.ok.inj h).symm
     subst hs'
-    refine ⟨⟨s.g.nextKey, tid, ?_, ?_, c3⟩, hci, ⟨d, rfl, hrank, ?_⟩, ?_, ?_⟩
+    refine ⟨⟨s.g.nextKey, tid, ?_, ?_, c3⟩, hci, ⟨d, rfl, hrank, ?_⟩, ?_, ?_, ?_, ?_, ?_⟩
     · show (s1.g.delLink dn "ticks").child? dn "link" = _
       rw [child?_delLink_name_ne _ _ _ (by decide)]; exact c1
     · show ((s1.g.delLink dn "ticks").links s.g.nextKey)[0]? = _
@@ -314,19 +321,33 @@ theorem linkDataArray_linked {s s' : DState} {p : Path} {i t dn : Nat} {iv : Lis
       rw [hasChild_eq, child?_delLink_self]; rfl
     · show kindOf (s1.g.delLink dn "ticks") dn = _
       unfold kindOf; rw [getAttr_delLink]; exact hkind1
+    · intro k m h1 h2
+      show (s1.g.delLink dn "ticks").child? k m = _
+      rw [child?_delLink_ne _ _ h1, c4 k m h1 h2, hg1child_ne k m h1]
+    · intro k h2
+      show kindOf (s1.g.delLink dn "ticks") k = _
+      unfold kindOf; rw [getAttr_delLink, c6 k _ h2, hg1attr]
+    · show kindOf (s1.g.delLink dn "ticks") s.g.nextKey = _
+      unfold kindOf; rw [getAttr_delLink, c8]; rfl
   · simp only [hfin, Bool.false_eq_true, ↓reduceIte] at h
     have hs' := (Except.ok.inj h).symm
     subst hs'
-    refine ⟨⟨s.g.nextKey, tid, c1, by rw [c2]; rfl, c3⟩, hci, ⟨d, rfl, hrank, hdata1⟩, ?_, hkind1⟩
-    intro hr
-    rw [hr] at hfin
-    simpa using hfin
+    refine ⟨⟨s.g.nextKey, tid, c1, by rw [c2]; rfl, c3⟩, hci, ⟨d, rfl, hrank, hdata1⟩, ?_, hkind1, ?_, ?_, ?_⟩
+    · intro hr
+      rw [hr] at hfin
+      simpa using hfin
+    · intro k m h1 h2
+      rw [c4 k m h1 h2, hg1child_ne k m h1]
+    · intro k h2
+      unfold kindOf; rw [c6 k _ h2, hg1attr]
+    · unfold kindOf; rw [c8]; rfl
 
 /-- what an accepted `dim.ticks = ts` leaves behind -/
 theorem setTicks_spec {s s' : DState} {p : Path} {i dn : Nat} {ts : List Rat}
     (h : setTicks s p i ts = .ok s') (hdn : dimAt s p i = .ok dn) :
     kindOf s.g dn = kDimRange ∧ descending ts = false ∧ hasLink s'.g dn = false ∧
-      s'.g.hasChild dn "ticks" = true ∧ readTicks s' dn = .ok ts := by
+      s'.g.hasChild dn "ticks" = true ∧ readTicks s' dn = .ok ts ∧
+      (∀ k m, k ≠ dn → s'.g.child? k m = s.g.child? k m) ∧ (∀ k, kindOf s'.g k = kindOf s.g k) := by
   unfold setTicks at h
   simp only [hdn] at h
   have hkr : kindOf s.g dn = kDimRange := Classical.byContradiction fun hc => by simp [hc] at h
@@ -354,6 +375,14 @@ theorem setTicks_spec {s s' : DState} {p : Path} {i dn : Nat} {ts : List Rat}
     rw [← hg1]; split
     · rw [node?_isSome_delLink]; exact hdnnode
     · exact hdnnode
+  have hg1child_ne : ∀ k m, k ≠ dn → g1.child? k m = s.g.child? k m := by
+    intro k m hkne; rw [← hg1]; split
+    · exact child?_delLink_ne _ _ hkne _
+    · rfl
+  have hg1attr : ∀ k a, g1.getAttr k a = s.g.getAttr k a := by
+    intro k a; rw [← hg1]; split
+    · exact getAttr_delLink _ _ _ _ _
+    · rfl
   have hs' := (Except.ok.inj h).symm
   subst hs'
   refine ⟨hkr, hasc, ?_⟩
@@ -361,8 +390,9 @@ theorem setTicks_spec {s s' : DState} {p : Path} {i dn : Nat} {ts : List Rat}
   cases hch : g1.child? dn "ticks" with
   | some k =>
     simp only
-    refine ⟨by simp [hasLink, hasChild_eq, hg1none], by simp [hasChild_eq, hch], ?_⟩
-    simp [readTicks, hasLink, hasChild_eq, hg1none, hch, look_put_self]
+    refine ⟨by simp [hasLink, hasChild_eq, hg1none], by simp [hasChild_eq, hch], ?_, hg1child_ne, ?_⟩
+    · simp [readTicks, hasLink, hasChild_eq, hg1none, hch, look_put_self]
+    · intro k'; unfold kindOf; rw [hg1attr]
   | none =>
     have hc1 : ((g1.newNode .dataset).1.addLink dn "ticks" (g1.newNode .dataset).2).child? dn "link" = none := by
       rw [child?_addLink_name_ne _ _ _ _ (by decide), child?_newNode]; exact hg1none
@@ -372,7 +402,90 @@ theorem setTicks_spec {s s' : DState} {p : Path} {i dn : Nat} {ts : List Rat}
       · rw [node?_isSome_newNode]; simp [hg1node]
       · rw [child?_newNode]; exact hch
     simp only
-    refine ⟨by simp [hasLink, hasChild_eq, hc1], by simp [hasChild_eq, hc2], ?_⟩
-    simp [readTicks, hasLink, hasChild_eq, hc1, hc2, look_put_self]
+    refine ⟨by simp [hasLink, hasChild_eq, hc1], by simp [hasChild_eq, hc2], ?_, ?_, ?_⟩
+    · simp [readTicks, hasLink, hasChild_eq, hc1, hc2, look_put_self]
+    · intro k m hk
+      rw [child?_addLink_ne _ _ _ hk, child?_newNode]; exact hg1child_ne k m hk
+    · intro k'; unfold kindOf; rw [getAttr_addLink, getAttr_newNode, hg1attr]
+
+/-! ### explicit ticks and a link exclude each other -/
+
+/-- no range dimension carries both a `ticks` dataset and a `link` group -/
+def Excl (s : DState) : Prop :=
+  ∀ dn, kindOf s.g dn = kDimRange → ¬ (s.g.hasChild dn "ticks" = true ∧ hasLink s.g dn = true)
+
+theorem excl_of_frame {s s' : DState} (dn : Nat) (h : Excl s)
+    (hdn : kindOf s'.g dn = kDimRange → ¬ (s'.g.hasChild dn "ticks" = true ∧ hasLink s'.g dn = true))
+    (hframe : ∀ k, k ≠ dn → kindOf s'.g k = kDimRange →
+      kindOf s.g k = kDimRange ∧ s'.g.child? k "ticks" = s.g.child? k "ticks" ∧
+        s'.g.child? k "link" = s.g.child? k "link") : Excl s' := by
+  intro k hk
+  by_cases hkd : k = dn
+  · rw [hkd] at hk ⊢; exact hdn hk
+  · obtain ⟨h1, h2, h3⟩ := hframe k hkd hk
+    have := h k h1
+    simpa [hasLink, hasChild_eq, h2, h3] using this
+
+theorem excl_setTicks {s s' : DState} {p : Path} {i : Nat} {ts : List Rat} (hex : Excl s)
+    (h : setTicks s p i ts = .ok s') : Excl s' := by
+  cases hdn : dimAt s p i with
+  | error e => simp [setTicks, hdn] at h
+  | ok dn =>
+    obtain ⟨_, _, h3, _, _, h6, h7⟩ := setTicks_spec h hdn
+    apply excl_of_frame dn hex
+    · intro _; rw [h3]; simp
+    · intro k hk hkr
+      exact ⟨by rw [← h7]; exact hkr, h6 k _ hk, h6 k _ hk⟩
+
+/-- (the descriptor addressed is a range, set or sampled dimension — the three kinds there are) -/
+theorem excl_linkDataArray {s s' : DState} {p : Path} {i t : Nat} {iv : List Int} (hex : Excl s)
+    (hfresh : s.g.node? s.g.nextKey = none)
+    (hkinds : ∀ dn, dimAt s p i = .ok dn →
+      kindOf s.g dn = kDimRange ∨ kindOf s.g dn = kDimSet ∨ kindOf s.g dn = kDimSample)
+    (h : linkDataArray s p i t iv = .ok s') : Excl s' := by
+  cases hdn : dimAt s p i with
+  | error e => simp [linkDataArray, hdn] at h
+  | ok dn =>
+    have hk : kindOf s.g dn = kDimRange ∨ kindOf s.g dn = kDimSet := by
+      rcases hkinds dn hdn with e | e | e
+      · exact Or.inl e
+      · exact Or.inr e
+      · simp [linkDataArray, hdn, e] at h
+    obtain ⟨_, _, _, h4, h5, h6, h7, h8⟩ := linkDataArray_linked h hdn hk hfresh
+    apply excl_of_frame dn hex
+    · intro hr
+      rw [h5] at hr
+      rw [h4 hr]; simp
+    · intro k hk hk'
+      have hknk : k ≠ s.g.nextKey := by
+        intro e; rw [e, h8] at hk'; revert hk'; decide
+      exact ⟨by rw [← h7 k hknk]; exact hk', h6 k _ hk hknk, h6 k _ hk hknk⟩
+
+theorem excl_writeData {s s' : DState} {q : Path} {vals : List Rat} (hex : Excl s)
+    (h : writeData s q vals = .ok s') : Excl s' := by
+  obtain ⟨_, _, _, _, _, _, hs'⟩ := writeData_ok h
+  subst hs'
+  exact hex
+
+theorem excl_removeLink {s s' : DState} {p : Path} {i : Nat} (hex : Excl s)
+    (h : removeLink s p i = .ok s') : Excl s' := by
+  unfold removeLink at h
+  cases hdn : dimAt s p i with
+  | error e => simp [hdn] at h
+  | ok dn =>
+    simp only [hdn] at h
+    split at h
+    · cases h
+    · have hs' := (Except.ok.inj h).symm
+      subst hs'
+      apply excl_of_frame dn hex
+      · intro _ hb
+        have : hasLink (s.g.delLink dn "link") dn = false := by
+          simp [hasLink, hasChild_eq, child?_delLink_self]
+        rw [this] at hb; cases hb.2
+      · intro k hk hk'
+        refine ⟨?_, child?_delLink_ne _ _ hk _, child?_delLink_ne _ _ hk _⟩
+        unfold kindOf at hk' ⊢
+        rw [getAttr_delLink] at hk'; exact hk'
 
 end Nix.DimLink.Lemmas
